@@ -6,7 +6,9 @@
    srv    server instance/configuration: "plain" | "drm" (DRM config loaded) | "limit" (request limiter on)
           | "rcv" (CMAF-ingest receiver) | "rcvraw" (receiver in raw mode with file server)
    ep     endpoint family: "livesim2" | "patch" | "urlgen_create" | "urlgen_mpds" | "urlgen_drms" | "misc"
-          | "laurl" | "api" | "rcv"
+          | "laurl" | "api" | "rcv" | "rcvseq" (a SEQUENCE of uploads on one receiver channel: tail = sequence shape,
+          body = class of the malformed init segment in it, query = channel kind shifted | unshifted; the outcome is
+          the first panic / timeout / process death of any step, else the status of the last step)
    parts  sequence of [k |-> key, c |-> value class]: the URL parameters under test (0, 1 or 2)
    ctx    sequence of [k, c]: parameters (always class "typical") that the tail shape needs to be meaningful
           (TailCtx below); the driver puts them in front of `parts`
@@ -40,7 +42,9 @@ ListKeys  == {"utc", "timesubsstpp", "timesubswvtt", "statuscode", "traffic", "a
 OtherKeys == {"modulo", "zzz"}          \* "modulo": documented as not implemented; "zzz": a key livesim2 does not know
 Keys      == IntKeys \cup FloatKeys \cup FlagKeys \cup ListKeys \cup OtherKeys
 
-Classes == {"empty", "zero", "neg1", "one", "typical", "huge", "nonnum", "float", "inf", "wrongsep", "brokenlist"}
+\* "tickedge": boundary values derived from the asset of the request - its segment duration exactly and off by half a
+\* tick / one tick of the addressed track's timescale / 1 ms (float keys: seconds with 7 decimals; integer keys: ms +-1)
+Classes == {"empty", "zero", "neg1", "one", "typical", "huge", "nonnum", "float", "inf", "wrongsep", "brokenlist", "tickedge"}
 
 \* tail shapes of /livesim2 requests on a known asset
 MediaTails == {"vnum", "anum", "vnum_lt", "anum_lt", "num_huge", "num_ovf", "vtime", "atime", "bu_in", "bu_out",
